@@ -867,3 +867,47 @@ def a_server_exists_only_after_a_successful_bind(ctx):
                   f'in the last round of `{src(loop).splitlines()[0]}` a handler of the failed bind can end without raising: the loop runs out, the constructor '
                   'returns a server whose socket was never bound ("TCPServer initiated"), the interface is registered as started and the discovery responder '
                   'answers with a port this node does not listen on', init)
+
+
+@rule('C19.R4d', min_instances=1)
+def the_old_socket_is_really_closed(ctx):
+    """frappy.lib.closeSocket (behind UDPListener.shutdown, used on Server.restart): close() is reached whatever shutdown()
+    does - shutdown() on an unconnected UDP socket ALWAYS raises ENOTCONN on Linux.  Direct form: close() is not skipped by an
+    exception of shutdown() (own try, or finally).  Step form (`for step in (lambda: sock.shutdown(..), lambda: sock.close())`):
+    the try that swallows the error of a step lies INSIDE the loop.  A socket that stays open keeps the discovery port bound
+    (SO_REUSEPORT): the kernel hands part of the requests to the dead responder, they are never answered"""
+    m = ctx.m
+    f = m.functions.get('frappy.lib.closeSocket')
+    if f is None:
+        raise AnchorMissing('frappy.lib.closeSocket not found')
+    ctx.analysed(f)
+    cfg = CFG(f.node, m, f.module)
+    key = f'{f.qualname}:close() is reached when shutdown() raises'
+    shut = [c for c in calls_in(f.node) if call_attr(c) == 'shutdown' and not any(isinstance(a, ast.Lambda) for a in ancestors(c))]
+    close = [c for c in calls_in(f.node) if call_attr(c) == 'close' and not any(isinstance(a, ast.Lambda) for a in ancestors(c))]
+    if shut and close:
+        cids = [i for c in close for i in cfg.node_of(c)]
+        for c in shut:
+            # follow the exceptional edges of the shutdown statement: every way to the normal exit passes close()
+            starts = [b for i in cfg.node_of(c) for b, lab in cfg.succ[i] if lab == 'exc' and b != cfg.exit_exc]
+            ok = bool(starts) and cfg.all_paths_pass(starts, [cfg.exit], cids, exc=False)
+            ctx.check(ok, key, c, 'the handler of a failing shutdown() leads to close()',
+                      f'an exception of `{src(c)}` skips `{src(close[0])}`: the socket stays open and bound', f)
+        return
+    # step form
+    steps = [x for x in body_walk(f.node) if isinstance(x, (ast.Tuple, ast.List)) and x.elts and all(isinstance(e, ast.Lambda) for e in x.elts)
+             and any(call_attr(c) == 'close' for e in x.elts for c in ast.walk(e) if isinstance(c, ast.Call))]
+    loops = [l for l in body_walk(f.node) if isinstance(l, ast.For) and isinstance(l.target, ast.Name) and
+             any(isinstance(c.func, ast.Name) and c.func.id == l.target.id for c in calls_in(l))]
+    if steps and loops:
+        for l in loops:
+            for c in [c for c in calls_in(l) if isinstance(c.func, ast.Name) and c.func.id == l.target.id]:
+                inner = [t for t, part in enclosing_tries(c) if part == 'body' and any(a is l for a in ancestors(t))]
+                outer = [t for t, part in enclosing_tries(c) if part == 'body' and not any(a is l for a in ancestors(t))]
+                ok = bool(inner) and not any(handler_leaves_loop_or_raises(h) for t in inner for h in t.handlers)
+                ctx.check(ok, key, c, 'every step has its own try inside the loop',
+                          f'`{src(c)}` is guarded by a try AROUND the loop' + (' only' if outer and not inner else '') + ': the error of the first step (shutdown() of an '
+                          'unconnected UDP socket raises ENOTCONN) ends the loop, close() is never called - after Server.restart() the old responder socket stays bound '
+                          'to the discovery port and swallows part of the requests', f)
+        return
+    ctx.undecided(key, f.node, 'shutdown / close steps not recognised', f)
